@@ -18,6 +18,9 @@ for patch in sorted(glob.glob(base + '/*/*/patch.diff')):
     files = [l[6:].strip() for l in open(patch, errors='replace') if l.startswith('+++ b/')]
     files += [l[6:].strip() for l in open(patch, errors='replace') if l.startswith('--- a/')]
     props = [pid] + sorted(p for p in anch if p != pid and anch[p] & set(files))
+    if os.environ.get('PRES_ONLY_PROPS'):  # re-run of some properties' checks only; results are merged per property
+        props = [p for p in props if p in os.environ['PRES_ONLY_PROPS'].split(',')]
+        if not props: continue
     out = subprocess.run([os.environ.get('VERIF_HOME', '/verif') + '/tools/mut.sh', patch] + props, capture_output=True).stdout.decode('utf-8', 'replace')
     entry = {}
     for line in out.splitlines():
@@ -32,5 +35,8 @@ for patch in sorted(glob.glob(base + '/*/*/patch.diff')):
     print(pid, x, 'props', ','.join(props), 'ALARM ' + json.dumps(bad)[:700] if bad or 'error' in entry else 'silent', flush=True)
 out = os.environ.get('PRES_OUT', base + '/results.json')
 old = json.load(open(out)) if os.path.exists(out) else {}
-old.update(res)
+if os.environ.get('PRES_ONLY_PROPS'):
+    for k, e in res.items(): old.setdefault(k, {}).update(e)
+else:
+    old.update(res)
 json.dump(old, open(out, 'w'), indent=1, sort_keys=True)
